@@ -1,6 +1,6 @@
 (* C16/POp.v -- the range of ResizingOperator: cell sides, covered interval, offset (R). *)
-From Coq Require Import ZArith Reals Lia Lra List Bool.
-From Verif Require Import Base.Num C16.ModelOp.
+From Coq Require Import ZArith QArith Reals Lia Lra List Bool.
+From Verif Require Import Base.Num Gen.ResizeDiscr C16.ModelOp.
 Import ListNotations.
 Local Open Scope R_scope.
 
@@ -20,26 +20,27 @@ Proof.
     field. assumption.
 Qed.
 
-Lemma num_lr_sum fixed n n_new off : let '(nl, nr) := num_lr fixed n n_new off in (nl + nr = n_new - n)%Z.
+Lemma num_lr_sum n n_new off : let '(nl, nr) := num_lr n n_new off in (nl + nr = n_new - n)%Z.
 Proof.
-  unfold num_lr. destruct (Z.eqb_spec n_new n); [lia|].
-  destruct off as [o|]; [destruct (fixed && (n_new - n <? 0)%Z)|]; lia.
+  unfold num_lr. destruct (Z.eqb_spec n_new n); cbn [negb]; [lia|].
+  destruct off as [o|]; [rewrite Z.geb_leb; destruct (0 <=? n_new - n)%Z|]; cbv zeta; lia.
 Qed.
 
 (* T1: the range built by _resize_discr has the same cell side, and its grid is
    the domain grid continued by nl cells to the left and nr cells to the right *)
-Lemma resize_axis_grid fixed (a : @axis R) n_new off bl br :
+Lemma resize_axis_grid (a : @axis R) n_new off bl br :
   axis_valid a -> (1 <= n_new)%Z -> (bl = true -> (2 <= n_new)%Z) -> (br = true -> (2 <= n_new)%Z) ->
-  let r := resize_axis fixed a n_new off bl br in
-  let nl := fst (num_lr fixed (a_n a) n_new off) in
-  let nr := snd (num_lr fixed (a_n a) n_new off) in
+  let r := resize_axis a n_new off bl br in
+  let nl := fst (num_lr (a_n a) n_new off) in
+  let nr := snd (num_lr (a_n a) n_new off) in
   cell_side r = cell_side a /\
   gmin r = gmin a - IZR nl * cell_side a /\
   gmax r = gmax a + IZR nr * cell_side a.
 Proof.
   intros Hv Hn Hb Hb' r nl nr. subst r nl nr.
-  pose proof (grid_span a Hv) as Hs. pose proof (num_lr_sum fixed (a_n a) n_new off) as Hsum.
-  unfold resize_axis. destruct (num_lr fixed (a_n a) n_new off) as [nl nr]. cbn [fst snd].
+  pose proof (grid_span a Hv) as Hs. pose proof (num_lr_sum (a_n a) n_new off) as Hsum.
+  unfold resize_axis. destruct (num_lr (a_n a) n_new off) as [nl nr]. cbn [fst snd].
+  unfold new_minpt, new_maxpt, of_Q. cbn [Qnum Qden].
   set (cs := cell_side a) in *. set (g0 := gmin a) in *. set (g1 := gmax a) in *.
   assert (Hnr : IZR nr = IZR n_new - IZR (a_n a) - IZR nl).
   { rewrite <- !minus_IZR. f_equal. lia. }
@@ -76,79 +77,72 @@ Qed.
 (* T1: with the same boundary convention, the range interval is the domain
    interval enlarged by exactly nl cells on the left and nr cells on the right,
    nl + nr = n_new - n, and the cell side is unchanged *)
-Lemma resize_axis_covers fixed (a : @axis R) n_new off :
+Lemma resize_axis_covers (a : @axis R) n_new off :
   axis_valid a -> (1 <= n_new)%Z ->
   (a_bl a = true -> (2 <= n_new)%Z) -> (a_br a = true -> (2 <= n_new)%Z) ->
-  let r := resize_axis fixed a n_new off (a_bl a) (a_br a) in
-  let nl := fst (num_lr fixed (a_n a) n_new off) in
-  let nr := snd (num_lr fixed (a_n a) n_new off) in
+  let r := resize_axis a n_new off (a_bl a) (a_br a) in
+  let nl := fst (num_lr (a_n a) n_new off) in
+  let nr := snd (num_lr (a_n a) n_new off) in
   cell_side r = cell_side a /\
   a_min r = a_min a - IZR nl * cell_side a /\
   a_max r = a_max a + IZR nr * cell_side a /\
   (nl + nr = n_new - a_n a)%Z.
 Proof.
   intros Hv Hn Hb Hb' r nl nr.
-  destruct (resize_axis_grid fixed a n_new off (a_bl a) (a_br a) Hv Hn Hb Hb') as [Hc _].
+  destruct (resize_axis_grid a n_new off (a_bl a) (a_br a) Hv Hn Hb Hb') as [Hc _].
   fold r in Hc. split; [exact Hc|].
   destruct (half_cell a Hv) as [H0 H1].
-  pose proof (num_lr_sum fixed (a_n a) n_new off) as Hsum.
+  pose proof (num_lr_sum (a_n a) n_new off) as Hsum.
   subst r nl nr. unfold resize_axis in *.
-  destruct (num_lr fixed (a_n a) n_new off) as [nl nr]. cbn [fst snd a_min a_max].
-  numR. rewrite H0, H1.
+  destruct (num_lr (a_n a) n_new off) as [nl nr]. cbn [fst snd a_min a_max].
+  unfold new_minpt, new_maxpt, of_Q. cbn [Qnum Qden]. numR. rewrite H0, H1.
   destruct (a_bl a), (a_br a); repeat split; try field; exact Hsum.
 Qed.
 
-(* _offset_from_spaces recovers |nl| from the two grids *)
-Lemma offset_float_resize fixed (a : @axis R) n_new off bl br :
+(* _offset_from_spaces recovers the number of cells added on the left (extension) resp.
+   removed on the left (restriction) from the two grids, with the sign convention of the code *)
+Lemma offset_float_resize (a : @axis R) n_new off bl br :
   axis_valid a -> (1 <= n_new)%Z -> (bl = true -> (2 <= n_new)%Z) -> (br = true -> (2 <= n_new)%Z) ->
   0 < cell_side a ->
-  offset_float a (resize_axis fixed a n_new off bl br)
-  = Rabs (IZR (fst (num_lr fixed (a_n a) n_new off))).
+  offset_float_ax a (resize_axis a n_new off bl br)
+  = IZR (let nl := fst (num_lr (a_n a) n_new off) in if (a_n a <? n_new)%Z then nl else (- nl)%Z).
 Proof.
   intros Hv Hn Hb Hb' Hcs.
-  destruct (resize_axis_grid fixed a n_new off bl br Hv Hn Hb Hb') as [_ [Hg _]].
-  unfold offset_float. numR. rewrite Hg.
-  replace (gmin a - IZR (fst (num_lr fixed (a_n a) n_new off)) * cell_side a - gmin a)
-    with (- IZR (fst (num_lr fixed (a_n a) n_new off)) * cell_side a) by ring.
-  rewrite Rabs_mult, (Rabs_pos_eq (cell_side a)) by lra. rewrite Ropp_mult_distr_l_reverse || idtac.
-  rewrite Rabs_Ropp. field. lra.
+  destruct (resize_axis_grid a n_new off bl br Hv Hn Hb Hb') as [_ [Hg _]].
+  unfold offset_float_ax, offset_float. rewrite Hg.
+  replace (a_n (resize_axis a n_new off bl br)) with n_new
+    by (unfold resize_axis; destruct (num_lr (a_n a) n_new off); reflexivity).
+  cbv zeta. destruct (a_n a <? n_new)%Z; numR; rewrite ?opp_IZR; field; lra.
 Qed.
 
-(* the code as it stands: restricting with an explicit offset puts the range to the
-   LEFT of the domain instead of inside it (finding range-restrict-explicit-offset) *)
 Definition unit10 : @axis R := {| a_min := 0; a_max := 1; a_n := 10; a_bl := false; a_br := false |}.
-Lemma range_restrict_offset_refuted :
-  exists (a : @axis R) n_new o, axis_valid a /\ (0 < o)%Z /\ (o + n_new <= a_n a)%Z /\
-    a_min (resize_axis false a n_new (Some o) (a_bl a) (a_br a)) < a_min a.
-Proof.
-  exists unit10, 6%Z, 2%Z. split; [unfold axis_valid; cbn; repeat split; try lia; discriminate|].
-  split; [lia|]. split; [cbn; lia|].
-  assert (Hv : axis_valid unit10) by (unfold axis_valid; cbn; repeat split; try lia; discriminate).
-  destruct (resize_axis_covers false unit10 6 (Some 2%Z) Hv ltac:(lia)
-              ltac:(discriminate) ltac:(discriminate)) as (_ & H0 & _).
-  change (fst (num_lr false (a_n unit10) 6 (Some 2%Z))) with 2%Z in H0.
-  rewrite H0.
-  assert (Hcs : cell_side unit10 = / 10).
-  { unfold cell_side, gmin, gmax, unit10. cbn [a_min a_max a_n a_bl a_br].
-    change (10 =? 1)%Z with false. cbv iota. numR.
-    change (2 * 10)%Z with 20%Z. change (10 - 1)%Z with 9%Z. field. }
-  rewrite Hcs. cbn [a_min unit10]. lra.
-Qed.
 
-(* with the repaired sign convention the restricted range starts o cells inside *)
-Lemma range_restrict_offset_fixed (a : @axis R) n_new o :
+(* a restriction with explicit offset o: the range is the sub-interval starting o cells inside
+   the domain (was finding range-restrict-explicit-offset, repaired in /repo by 62efc7f; the
+   num_l / num_r tree is regenerated from the source, so the old sign convention
+   num_l = +o would make this proof fail) *)
+Lemma range_restrict_offset (a : @axis R) n_new o :
   axis_valid a -> (1 <= n_new < a_n a)%Z ->
   (a_bl a = true -> (2 <= n_new)%Z) -> (a_br a = true -> (2 <= n_new)%Z) ->
-  let r := resize_axis true a n_new (Some o) (a_bl a) (a_br a) in
+  let r := resize_axis a n_new (Some o) (a_bl a) (a_br a) in
   cell_side r = cell_side a /\
   a_min r = a_min a + IZR o * cell_side a /\
   a_max r = a_max a - IZR (a_n a - n_new - o) * cell_side a.
 Proof.
   intros Hv Hn Hb Hb' r.
-  destruct (resize_axis_covers true a n_new (Some o) Hv ltac:(lia) Hb Hb') as (Hc & H0 & H1 & _).
+  destruct (resize_axis_covers a n_new (Some o) Hv ltac:(lia) Hb Hb') as (Hc & H0 & H1 & _).
   fold r in Hc, H0, H1. split; [exact Hc|].
-  unfold num_lr in H0, H1. destruct (Z.eqb_spec n_new (a_n a)); [lia|].
-  destruct (Z.ltb_spec (n_new - a_n a) 0); [|lia]. cbn [andb fst snd] in H0, H1.
+  unfold num_lr in H0, H1. destruct (Z.eqb_spec n_new (a_n a)); [lia|]. cbn [negb] in H0, H1.
+  cbv zeta in H0, H1. rewrite Z.geb_leb in H0, H1.
+  destruct (Z.leb_spec 0 (n_new - a_n a)); [lia|]. cbn [fst snd] in H0, H1.
   rewrite H0, H1. rewrite opp_IZR. split; [ring|].
   replace (n_new - a_n a + o)%Z with (- (a_n a - n_new - o))%Z by lia. rewrite opp_IZR. ring.
+Qed.
+
+(* default offset: the size change is split evenly, the odd cell goes to the left *)
+Lemma default_split n n_new :
+  let '(nl, nr) := num_lr n n_new None in ((nl + nr = n_new - n) /\ (0 <= nl - nr <= 1))%Z.
+Proof.
+  unfold num_lr. destruct (Z.eqb_spec n_new n); cbn [negb]; cbv zeta; [lia|].
+  pose proof (Z.div_mod (n_new - n) 2 ltac:(lia)). pose proof (Z.mod_pos_bound (n_new - n) 2 ltac:(lia)). lia.
 Qed.
